@@ -6,7 +6,10 @@ w=/tmp/evalp.$$.$L; mkdir -p $w/verif
 rsync -a --exclude .git /repo/ $w/repo/
 cp /verif/known_findings.json $w/verif/
 if ! (cd $w/repo && patch -p1 -s --no-backup-if-mismatch < $P) >/dev/null 2>&1; then echo "NOAPPLY $L"; rm -rf $w; exit 2; fi
-out=$(RG_WORK=$w/work ${RGCHECK:-/verif/bin/rgcheck} -prop all -repo $w/repo -verif $w/verif 2>&1)
+SEED=/tmp/rg_gocache_seed
+if [ ! -d $SEED ]; then GOCACHE=$SEED RG_WORK=$w/seedwork ${RGCHECK:-/verif/bin/rgcheck} -prop C04 -repo /repo -verif $w/seedverif >/dev/null 2>&1; fi
+cp -al $SEED $w/gocache
+out=$(GOCACHE=$w/gocache RG_WORK=$w/work ${RGCHECK:-/verif/bin/rgcheck} -prop all -repo $w/repo -verif $w/verif 2>&1)
 fired=$(echo "$out" | grep '^VIOLATION' | sed 's/.*property=\(C[0-9]*\).*/\1/' | tr '\n' ' ')
 if [ -n "$fired" ]; then echo "FIRED $L: $fired"; echo "$out" | grep '^  ' | sort -u | cut -c1-400 | head -12; else echo "silent $L"; fi
 rm -rf $w
